@@ -71,6 +71,7 @@ def st_pred():
         st.none(),
         st.fixed_dictionaries({"t": st.just("coord"), "i": st.integers(0, 10)}),
         st.fixed_dictionaries({"t": st.sampled_from(["le", "ge"]), "frac": fl(0.1, 0.9)}),
+        st.fixed_dictionaries({"t": st.just("absent")}),  # a coordinate value no point of the mesh has: an empty per-axis selection
     )
 
 
@@ -115,6 +116,10 @@ def make_boundary(fem, fc, spec, name):
                 v = float(vals[p["i"] % len(vals)])
                 kw["f" + "xyz"[k]] = v
                 masks.append(np.isclose(x, v))
+            elif p["t"] == "absent":
+                v = float(x.max() + 1.25)
+                kw["f" + "xyz"[k]] = v
+                masks.append(np.zeros(len(x), bool))
             else:
                 thr = float(x.min() + p["frac"] * (x.max() - x.min()))
                 if p["t"] == "le":
